@@ -4,14 +4,13 @@ import Dassh.Gen.C07T3
 import Dassh.Gen.C07T4
 import Dassh.Gen.C07T5
 import Dassh.Gen.C07T6
-import Dassh.Gen.C07T8
 
 namespace Dassh.Gen.C07All
 
-def ringCounts : List Nat := [2, 3, 4, 5, 6, 8]
+def ringCounts : List Nat := [2, 3, 4, 5, 6]
 
-def allCerts : List Bool := Dassh.Gen.C07T2.certs ++ Dassh.Gen.C07T3.certs ++ Dassh.Gen.C07T4.certs ++ Dassh.Gen.C07T5.certs ++ Dassh.Gen.C07T6.certs ++ Dassh.Gen.C07T8.certs
+def allCerts : List Bool := Dassh.Gen.C07T2.certs ++ Dassh.Gen.C07T3.certs ++ Dassh.Gen.C07T4.certs ++ Dassh.Gen.C07T5.certs ++ Dassh.Gen.C07T6.certs
 
 theorem all_ok : allCerts.all (· = true) = true := by
-  simp only [allCerts, List.all_append, Bool.and_self, Dassh.Gen.C07T2.certs_ok, Dassh.Gen.C07T3.certs_ok, Dassh.Gen.C07T4.certs_ok, Dassh.Gen.C07T5.certs_ok, Dassh.Gen.C07T6.certs_ok, Dassh.Gen.C07T8.certs_ok]
+  simp only [allCerts, List.all_append, Bool.and_self, Dassh.Gen.C07T2.certs_ok, Dassh.Gen.C07T3.certs_ok, Dassh.Gen.C07T4.certs_ok, Dassh.Gen.C07T5.certs_ok, Dassh.Gen.C07T6.certs_ok]
 end Dassh.Gen.C07All
